@@ -173,8 +173,10 @@ def component(c, rec):
 
 
 def _scen_cases():
-    return st.builds(lambda s, t, dt, n: {"lat": max(-89.0, min(89.0, s[0])), "lon": s[1], "alt": max(0.0, s[2]), "start": iso(t), "dt": dt, "n": n},
-                     _sites(), _starts(), st.sampled_from([2, 7, 30, 60, 300, 900]), st.integers(2, 8))
+    # "join": how the second ground facility joins the running scenario - Scenario.addSensor called with its geodetic configuration,
+    # or a sensor_addition event of the configuration (on a step boundary, or "join_frac" of a step after it)
+    return st.builds(lambda s, t, dt, n, j, jf: {"lat": max(-89.0, min(89.0, s[0])), "lon": s[1], "alt": max(0.0, s[2]), "start": iso(t), "dt": dt, "n": n, "join": j, "join_frac": jf},
+                     _sites(), _starts(), st.sampled_from([2, 7, 30, 60, 300, 900]), st.integers(2, 8), st.sampled_from(["api", "event", "event"]), st.sampled_from([0.0, 0.0, 0.5]))
 
 
 @PROP.clause("scenario", strategy=_scen_cases, quick=48, thorough=1200, shards=16)
@@ -189,21 +191,32 @@ def scenario(c, rec):
         rec.nontrivial([c["start"], round(c["lat"], 1), round(c["lon"], 1), dt, n])
     tgt = kit.eci_target(10001, kit.circular_state_over(c["lat"], c["lon"], t0, 9000.0))
     sen = kit.ground_sensor(20001, c["lat"], c["lon"], c["alt"])
-    cfg = kit.scenario_config(t0, t0 + timedelta(seconds=(n + 1) * dt), dt, [kit.engine(1, [sen], [tgt])], truth_only=True)
+    # a second ground facility joins the running scenario half-way through
+    k_add = max(1, n // 2)
+    c2 = dict(c, lat=max(-88.0, min(88.0, c["lat"] + 1.5)), lon=((c["lon"] - 2.0 + 180.0) % 360.0) - 180.0)
+    join = c.get("join", "api")
+    events = []
+    if join == "event":
+        # (the event is handled in the step whose interval contains its time: k_add also for a time inside that step)
+        tau = k_add * dt - (int(c.get("join_frac", 0.0) * dt) if dt >= 2 else 0)
+        events.append({"scope": "scenario_step", "scope_instance_id": 0, "start_time": kit.iso(t0 + timedelta(seconds=tau)), "event_type": "sensor_addition",
+                       "tasking_engine_id": 1, "sensor_agent": kit.ground_sensor(20002, c2["lat"], c2["lon"], c2["alt"])})
+        rec.label("joins_by_event" + ("_inside_a_step" if tau != k_add * dt else "_on_a_step_boundary"))
+    cfg = kit.scenario_config(t0, t0 + timedelta(seconds=(n + 1) * dt), dt, [kit.engine(1, [sen], [tgt])], truth_only=True, events=events)
     sc = kit.build(cfg)
     agent = sc.sensor_agents[20001]
     _expect(c, t0, agent.eci_state, rec, "scenario: initial sensor state")
-    # a second ground facility joins the running scenario (Scenario.addSensor with its geodetic configuration) half-way through
-    k_add = max(1, n // 2)
-    c2 = dict(c, lat=max(-88.0, min(88.0, c["lat"] + 1.5)), lon=((c["lon"] - 2.0 + 180.0) % 360.0) - 180.0)
     added = None
     for k in range(1, n + 1):
         sc.stepForward()
         when = t0 + timedelta(seconds=k * dt)
         if k == k_add:
-            sc.addSensor(kit.ground_sensor(20002, c2["lat"], c2["lon"], c2["alt"]), 1)
+            if join == "api":
+                sc.addSensor(kit.ground_sensor(20002, c2["lat"], c2["lon"], c2["alt"]), 1)
+            elif 20002 not in sc.sensor_agents:
+                raise Violation("ground_sensor_not_added", f"the sensor_addition event at step {k} did not add the ground facility")
             added = sc.sensor_agents[20002]
-            _expect(c2, when, added.eci_state, rec, f"scenario: ground sensor added after step {k}, state at joining")
+            _expect(c2, when, added.eci_state, rec, f"scenario: ground sensor added ({join}) in step {k}, state at joining")
         elif added is not None:
             if added.datetime_epoch != when:
                 raise Violation("agent_epoch", f"added sensor epoch {added.datetime_epoch} != {when}")
